@@ -125,6 +125,7 @@ class Seams:
         self.key_script = []        # forced private scalars (edge keys)
         self.ftime = FakeTime(kernel, real_time)
         self._saved = []
+        self.logged_errors = []     # (t, message, exception type, exception text) logged at ERROR by the repo
         self.server_threads = []    # UdpServerThread instances started under simulation
         self.server_sockets = []
         self.reactor = None
@@ -213,12 +214,21 @@ class Seams:
         self._pkt_saved = {n: getattr(P, n) for n in ("MTU", "MAX_SIZE", "MAX_PAYLOAD_SIZE", "MAX_SIZE_CRC",
                                                      "MAX_FRAGMENT_SIZE", "RECV_SIZE")}
         P.setMTU(self.mtu)
-        self._log_disable = logging.root.manager.disable
-        logging.disable(logging.CRITICAL)
+        # capture what the repository logs at ERROR (swallowed exceptions); drop the rest cheaply
+        lg = logging.getLogger("mpgameserver")
+        self._log_saved = (lg.level, lg.propagate, list(lg.handlers), logging.root.manager.disable)
+        logging.disable(logging.NOTSET)
+        lg.handlers = [_Capture(self)]
+        lg.propagate = False
+        lg.setLevel(logging.ERROR)
         return self
 
     def __exit__(self, *exc):
-        logging.disable(self._log_disable)
+        lg = logging.getLogger("mpgameserver")
+        lg.setLevel(self._log_saved[0])
+        lg.propagate = self._log_saved[1]
+        lg.handlers = self._log_saved[2]
+        logging.disable(self._log_saved[3])
         for n, v in self._pkt_saved.items():
             setattr(conn_mod.Packet, n, v)
         for obj, name, old in reversed(self._saved):
@@ -234,3 +244,18 @@ class Seams:
 
 
 _MISSING = object()
+
+
+class _Capture(logging.Handler):
+    def __init__(self, seams):
+        super().__init__(logging.ERROR)
+        self.seams = seams
+
+    def emit(self, record):
+        ei = record.exc_info
+        try:
+            msg = record.getMessage()
+        except Exception:       # noqa
+            msg = str(record.msg)
+        self.seams.logged_errors.append((self.seams.k.now, msg[:160], type(ei[1]).__name__ if ei and ei[1] else None,
+                                         str(ei[1])[:160] if ei and ei[1] else None))
